@@ -4,9 +4,12 @@ From FunV Require Import Base.Tac Model.SortSpec Model.ListHeap.
 Inductive case :=
 | CIsSorted (id : Z) (ltk : Z) (l : list Z) (obs : bool)
 | CHeap (id : Z) (ltk : Z) (ops : list hop) (obs_pops : list (option Z)) (obs_final : list Z)
-(* SortMerge (alg 0) / SortQuick (alg 1) on the pointer-level model, followed by PopFront and PushBack 77;
-   obs = |fwd| fwd |bwd| bwd Len allIn  popOk popValue  |fwd'| fwd' |bwd'| bwd' Len' *)
-| CSort (id : Z) (alg ltk : Z) (l : list Z) (obs : list Z).
+(* SortMerge (alg 0) / SortQuick (alg 1) on the pointer-level model, followed by the usability probe
+   [probe]; obs = |fwd| fwd |bwd| bwd Len allIn ++ the probe's observations *)
+| CSort (id : Z) (alg ltk : Z) (l : list Z) (obs : list Z)
+(* a heap built by the real NewHeapFromIterator from an iterator that completed / failed / was cancelled:
+   [consumed] = the prefix of the source the returned heap holds; then push/pop ops; then a drain *)
+| CHeapIter (id : Z) (ltk : Z) (consumed : list Z) (ops : list hop) (obs_pops : list (option Z)) (obs_final : list Z).
 
 Definition optZ_eqb (a b : option Z) : bool :=
   match a, b with Some x, Some y => Z.eqb x y | None, None => true | _, _ => false end.
@@ -19,12 +22,46 @@ Fixpoint list_eqb {A} (eqb : A -> A -> bool) (a b : list A) : bool :=
   end.
 
 Definition case_id (c : case) : Z :=
-  match c with CIsSorted id _ _ _ => id | CHeap id _ _ _ _ => id | CSort id _ _ _ _ => id end.
+  match c with CIsSorted id _ _ _ => id | CHeap id _ _ _ _ => id | CSort id _ _ _ _ => id | CHeapIter id _ _ _ _ _ => id end.
 
 Definition zlp (vs : list Z) : list Z := Z.of_nat (List.length vs) :: vs.
 
 Fixpoint push_all (l : list Z) : M unit :=
   match l with [] => ret tt | v :: l' => bind (PushBack 0 v) (fun _ => push_all l') end.
+
+(* is the element owned by list 0 (Element.In(l)) *)
+Definition in0 (e : ref) : M Z :=
+  match e with
+  | Some n => get (fun w => if ref_eqb (nowner (nodes w n)) (Some 0%nat) then 1 else 0)%Z
+  | None => ret 0%Z
+  end.
+Definition b2z (b : bool) : Z := if b then 1%Z else 0%Z.
+Definition walks0 : M (list Z) := get (fun w => zlp (fwd_vals w 0) ++ zlp (bwd_vals w 0)).
+Definition len0 : M Z := get (fun w => llen (lists w 0)).
+
+Fixpoint drain_front (fuel : nat) (acc : list Z) : M (list Z) :=
+  match fuel with
+  | O => ret (rev acc)
+  | S f => bind (PopFront 0) (fun e => bind (OkE e) (fun k =>
+             if k then bind (Value e) (fun v => drain_front f (v :: acc)) else ret (rev acc)))
+  end.
+
+(* the usability probe run after every sort: pushes at both ends (PushFront goes through the sentinel),
+   pops at both ends, a complete drain, pushes into the drained list, a final pop *)
+Definition probe (n : nat) : M (list Z) :=
+  bind (PushFront 0 88) (fun _ => bind (get (fun w => zlp (fwd_vals w 0))) (fun f1 => bind len0 (fun n1 =>
+  bind (Front 0) (fun fr => bind (in0 fr) (fun i1 => bind (Value fr) (fun v1 =>
+  bind (PushBack 0 77) (fun _ => bind (get (fun w => zlp (fwd_vals w 0))) (fun f2 => bind len0 (fun n2 =>
+  bind (Back 0) (fun bk => bind (in0 bk) (fun i2 => bind (Value bk) (fun v2 =>
+  bind (PopFront 0) (fun e3 => bind (OkE e3) (fun k3 => bind (Value e3) (fun v3 => bind (in0 e3) (fun i3 => bind len0 (fun n3 =>
+  bind (PopBack 0) (fun e4 => bind (OkE e4) (fun k4 => bind (Value e4) (fun v4 => bind (in0 e4) (fun i4 => bind len0 (fun n4 =>
+  bind (drain_front (n + 4) []) (fun dr => bind len0 (fun n5 =>
+  bind (PushBack 0 55) (fun _ => bind (PushFront 0 44) (fun _ => bind walks0 (fun w6 => bind len0 (fun n6 =>
+  bind (Front 0) (fun fr6 => bind (in0 fr6) (fun i6 => bind (Back 0) (fun bk6 => bind (in0 bk6) (fun j6 =>
+  bind (PopFront 0) (fun e7 => bind (OkE e7) (fun k7 => bind (Value e7) (fun v7 => bind len0 (fun n7 =>
+  ret (f1 ++ [n1; i1; v1] ++ f2 ++ [n2; i2; v2] ++ [b2z k3; v3; i3; n3] ++ [b2z k4; v4; i4; n4] ++
+       zlp dr ++ [n5] ++ w6 ++ [n6; i6; j6] ++ [b2z k7; v7; n7])%Z
+  )))))))))))))))))))))))))))))))))))).
 
 Definition sort_obs (alg ltk : Z) (l : list Z) : option (list Z) :=
   let sort := if Z.eqb alg 0 then SortMerge (lt_of ltk) 0%nat else SortQuick (lt_of ltk) 0%nat in
@@ -33,13 +70,8 @@ Definition sort_obs (alg ltk : Z) (l : list Z) : option (list Z) :=
       let f := fwd_nodes w 0 in
       let o1 := zlp (fwd_vals w 0) ++ zlp (bwd_vals w 0) ++
                 [llen (lists w 0); if forallb (fun n => ref_eqb (nowner (nodes w n)) (Some 0%nat)) f then 1 else 0]%Z in
-      match PopFront 0%nat w with
-      | Ret e w1 =>
-          match bind (OkE e) (fun k => bind (Value e) (fun v => bind (PushBack 0 77) (fun _ => ret (k, v)))) w1 with
-          | Ret (k, v) w2 =>
-              Some (o1 ++ [if k then 1 else 0; v]%Z ++ zlp (fwd_vals w2 0) ++ zlp (bwd_vals w2 0) ++ [llen (lists w2 0)])
-          | _ => None
-          end
+      match probe (List.length l) w with
+      | Ret o2 _ => Some (o1 ++ o2)
       | _ => None
       end
   | _ => None
@@ -53,6 +85,9 @@ Definition check_case (c : case) : bool :=
       list_eqb optZ_eqb p pops && list_eqb Z.eqb f fin
   | CSort _ alg k l obs =>
       match sort_obs alg k l with Some o => list_eqb Z.eqb o obs | None => false end
+  | CHeapIter _ k consumed ops pops fin =>
+      let '(p, f) := heap_run (lt_of k) (heap_from_list (lt_of k) consumed) ops in
+      list_eqb optZ_eqb p pops && list_eqb Z.eqb f fin
   end.
 
 Definition mismatches (cs : list case) : list Z :=
